@@ -42,6 +42,9 @@ def run(plan):
     res = Result()
     recs = [(cid, bytes.fromhex(v)) for cid, v in plan["records"]]
     splits = plan["splits"]
+    # units differ in the message id they put into responses (a running counter, or always the same value): with a
+    # constant one, identical record lists give byte-identical responses
+    dev.fixed_msg_id = bool(plan.get("fixed_msg_id"))
 
     async def query(pages, late_dup=False):
         dev.caps_pages = pages
@@ -147,7 +150,7 @@ def run(plan):
     except (SimDeadlock, SimStepLimit) as e:
         res.fail(f"liveness: {type(e).__name__}", str(e))
     res.take(w)
-    res.key = (tuple((c, v) for c, v in plan["records"]), tuple(splits), plan.get("flag"), bool(plan.get("late_dup")), repr(plan.get("flag1")), bool(plan.get("lose_page2_first")))
+    res.key = (tuple((c, v) for c, v in plan["records"]), tuple(splits), plan.get("flag"), bool(plan.get("late_dup")), repr(plan.get("flag1")), bool(plan.get("lose_page2_first")), bool(plan.get("fixed_msg_id")))
     res.nontrivial = len(recs) >= 2
     return res
 
@@ -215,7 +218,8 @@ def space(tier):
         return {"config": {"version": rng.choice([2, 2, 3])}, "records": recs, "splits": splits,
                 "flag": rng.choice([None, False]), "late_dup": rng.random() < 0.3,
                 # the flag byte announcing a further page: any non-zero value
-                "flag1": rng.choice([True, True, 1, 2, 3, 0x80, 0xFF]), "lose_page2_first": rng.random() < 0.15}
+                "flag1": rng.choice([True, True, 1, 2, 3, 0x80, 0xFF]), "lose_page2_first": rng.random() < 0.15,
+                "fixed_msg_id": rng.random() < 0.5}
     sp.add("random", 2500 if tier == "quick" else 400_000, rnd)
     return sp
 
